@@ -11,6 +11,10 @@ for d in sorted(glob.glob(os.path.join(ROOT, 'seeded', '*', 'meta.json'))):
     if only and sid not in only and m['breaks_property'] not in only:
         continue
     targets = [k for k, v in m['results'].items() if 'CAUGHT' in v]
+    if os.environ.get("MATRIX_TARGET_ONLY") and targets:
+        # only the check of the property the change was aimed at (or, where that property's
+        # quantifier does not cover the change, the first check that is claimed to catch it)
+        targets = [m['breaks_property']] if m['breaks_property'] in targets else targets[:1]
     t0 = time.time()
     p = subprocess.run([os.path.join(ROOT, 'tools', 'try_mutant.py'), os.path.join(os.path.dirname(d), 'patch.diff')] + targets, stdout=subprocess.PIPE, stderr=subprocess.STDOUT, text=True)
     res = {}
